@@ -94,6 +94,38 @@ def random_exec(rng, n, naddr, P):
     return ex
 
 
+def stage_exec(rng, n, P):
+    """Allocation stages entered, left without release, re-entered and released, over a few addresses that share two buckets: records of
+    different stages end up in every order within a chain (a lower-stage record in front of a higher-stage one after a stage is re-entered).
+    The generator only tracks which addresses may be live; which blocks a stage release frees is the specification's business."""
+    addrs = [0, P, 2 * P, 3 * P, 1, P + 1, 2 * P + 1]
+    live, ex, stage, seq = set(), [[rng.choice(["enable", "startchecking"]), 0, 0, 0, "", 0, ""]], 0, 1
+    for _ in range(n):
+        r = rng.random()
+        free_addrs = [a for a in addrs if a not in live]
+        if r < 0.36 and free_addrs:
+            a = rng.choice(free_addrs)
+            ex.append(["alloc", a, 0, rng.choice([1, 8]), rng.choice(["new", "malloc"]), 100 + seq % 900, ""]); live.add(a); seq += 1
+        elif r < 0.56 and stage < 6:
+            ex.append(["incstage", 0, 0, 0, "", 0, ""]); stage += 1
+        elif r < 0.72 and stage > 0:
+            ex.append(["decstage", 0, 0, 0, "", 0, ""]); stage -= 1
+        elif r < 0.86:
+            ex.append(["freestage", 0, 0, 0, "", 0, ""])
+            ex.append(["report", 0, 0, 0, "", 0, "all"])
+            # resynchronise the generator's idea of what is live: release everything that may be left, unknown addresses answer "non-allocated"
+            for a in sorted(live):
+                if rng.random() < 0.5:
+                    ex.append(["free", a, 0, 0, "", 0, ""])
+            live = set()
+            ex.append(["clear", 0, 0, 0, "", 0, "all"])
+        elif r < 0.93 and live:
+            a = rng.choice(sorted(live)); ex.append(["free", a, 0, 0, "", 0, ""]); live.discard(a)
+        else:
+            ex.append(["report", 0, 0, 0, "", 0, rng.choice(["all", "enabled", "checking"])])
+    return ex
+
+
 def many_leaks_exec(rng, n):
     """More outstanding blocks than the detector's fixed report buffer can list: the report is cut, the stated total must not be."""
     ex = [[rng.choice(["enable", "startchecking", "disable"]), 0, 0, 0, "", 0, ""]]
@@ -173,6 +205,7 @@ def run(ctx):
     nexec, nops = (6, 500) if quick else (40, 2500)
     execs = [random_exec(ctx.rng, nops, 64, P) for _ in range(nexec)]
     execs += [many_leaks_exec(ctx.rng, n) for n in ([13, 20, 45] if quick else [5, 12, 14, 16, 20, 30, 45, 70, 120, 180])]
+    execs += [stage_exec(ctx.rng, 80, P) for _ in range(25 if quick else 300)]
     ctx.sample({"source": "seeded random driver", "execution": ["\t".join(map(str, l)) for l in execs[0][:12]]})
     for sep in (0, 1):
         conform(ctx, "random-sep%d" % sep, execs, lambda s, l, sep=sep: ctx.run([exe, s, l, str(P), str(sep), str(sep)], timeout=(120 if ctx.quick else 600)),
